@@ -168,6 +168,28 @@ def polyverts(v):
     return v is None or (seq(v) and s is not None and len(s) == 2 and s[1] == 3 and s[0] >= 2)
 
 
+def meshverts(v):
+    s = shape(v)
+    if not (seq(v) and s is not None and len(s) == 2 and s[1] == 3):
+        return False
+    return True if s[0] >= 4 else AMBIG       # fewer vertices than the faces refer to: index error, not a format question
+
+
+def meshfaces(v):
+    s = shape(v)
+    if not (seq(v) and s is not None and len(s) == 2 and s[1] == 3 and s[0] >= 1):
+        return False
+    a = arr(v)
+    if np.any(a != np.round(a)):
+        return False                           # a face is a triple of vertex INDICES
+    if np.any(a < 0) or np.any(a > 3):
+        return AMBIG                           # out-of-range / negative indices: excluded
+    return True
+
+
+CTOR_ONLY = {("TriangularMesh", "vertices"), ("TriangularMesh", "faces")}
+
+
 def pixel(v):
     s = shape(v)
     return v is None or (seq(v) and s is not None and len(s) >= 1 and s[-1] == 3 and 0 not in s)
@@ -199,6 +221,9 @@ def classes():
         "Dipole": (magpy.misc.Dipole, dict(moment=(1, 2, 3))),
         "Sensor": (magpy.Sensor, dict(pixel=[(0, 0, 0), (0.1, 0, 0)])),
         "CustomSource": (magpy.misc.CustomSource, dict(field_func=_ff_ok)),
+        "TriangularMesh": (magpy.magnet.TriangularMesh, dict(vertices=TV, faces=[(0, 2, 1), (0, 1, 3), (0, 3, 2), (1, 2, 3)], polarization=pol,
+                                                             check_open="ignore", check_disconnected="ignore",
+                                                             check_selfintersecting="ignore", reorient_faces="ignore")),
     }
 
 
@@ -217,6 +242,10 @@ for _c in ("Cuboid", "Circle", "Sensor", "Dipole", "Tetrahedron"):
 for _c in ("Cuboid", "Sensor", "Polyline"):
     SPEC[(_c, "orientation")] = orient
 SPEC[("CustomSource", "field_func")] = fieldfunc
+SPEC[("TriangularMesh", "vertices")] = meshverts
+SPEC[("TriangularMesh", "faces")] = meshfaces
+SPEC[("TriangularMesh", "polarization")] = vec(3)
+SPEC[("TriangularMesh", "position")] = path
 
 
 def snap(o):
@@ -243,7 +272,7 @@ def check_one(task):
         return {"ambiguous": True, "problems": []}
     problems = []
     results = {}
-    for via in ("ctor", "setter", "copy"):
+    for via in (("ctor",) if (cls, attr) in CTOR_ONLY else ("ctor", "setter", "copy")):
         kw = {k: w for k, w in base.items() if not (k in ("polarization", "magnetization") and attr in ("polarization", "magnetization"))}
         caller = v.copy() if isinstance(v, np.ndarray) else v
         try:
@@ -304,6 +333,14 @@ def check_one(task):
         elif attr == "field_func":
             if rb is not v:
                 problems.append(("readback-differs", via))
+        elif attr == "faces":   # vertex indices: stored as integers; the winding of a face may be changed by reorientation
+            rbi = np.asarray(rb)
+            if rbi.dtype.kind != "i":
+                problems.append((f"stored-dtype-{rbi.dtype}", via))
+            if sorted(map(sorted, rbi.tolist())) != sorted(map(sorted, np.array(v, float).astype(int).tolist())):
+                problems.append(("readback-differs", via))
+            if isinstance(caller, np.ndarray) and np.shares_memory(rbi, caller):
+                problems.append(("stored-array-shares-memory-with-input", via))
         elif attr == "orientation":
             m1 = rb.as_matrix().reshape(-1, 3, 3)
             m0 = v.as_matrix().reshape(-1, 3, 3)
@@ -347,7 +384,7 @@ def check_one(task):
             problems.append((f"accepted-object-fails-later-{type(e).__name__}", via))
     if valid and results.get("ctor") == "ok" and results.get("setter") == "ok":
         pass
-    if len({results.get("ctor"), results.get("setter")}) > 1:
+    if (cls, attr) not in CTOR_ONLY and len({results.get("ctor"), results.get("setter")}) > 1:
         problems.append((f"ctor-{results.get('ctor')}-but-setter-{results.get('setter')}".replace(":", "-"), "both"))
     return {"valid": bool(valid), "results": results, "problems": problems}
 
@@ -438,7 +475,8 @@ def run(tier, seed):
     G = grammar("thorough")
     tasks = [(cls, attr, n, v) for (cls, attr) in SPEC for n, v in G]
     itasks = [("incomplete", cls, attr, how) for cls, (C, base) in classes().items() if cls != "Sensor"
-              for attr in base if attr in MANDATORY for how in ("ctor_omitted", "ctor_none", "setter_none")]
+              for attr in base if attr in MANDATORY and (cls, attr) not in CTOR_ONLY
+              for how in ("ctor_omitted", "ctor_none", "setter_none")]
     ires = common.pmap(work, itasks)
     res = common.pmap(work, tasks)
     viols, harness = [], []
